@@ -67,7 +67,7 @@ def nan_bits(v):
 
 
 def candidates(summ):
-    sets = [K.BOUNDARY[k] for k in summ.kinds]
+    sets = [K.BOUNDARY[summ.kinds[i]] for i in range(len(summ.inputs))]
     return itertools.product(*sets)
 
 
@@ -118,16 +118,17 @@ def decide(cond, summ, qs, timeout_ms, seed, label):
     return "unknown", None
 
 
-def check_summary(summ, profile, qs, timeout_ms=20000, seed=0, want_c05=True, want_c17=True):
+def check_summary(summ, profile, qs, timeout_ms=20000, seed=0, want_c05=True, want_c17=True, orc=None, prop="C05", arm=None):
     """returns list of Finding (unconfirmed)"""
     op, kinds = summ.op, summ.kinds
-    arm = ",".join(kinds)
-    orc = K.oracle(op, kinds, summ.inputs)
+    arm = arm or ",".join(kinds)
+    if orc is None:
+        orc = K.oracle(op, kinds, summ.inputs)
     out = []
     lab = "%s[%s]/%s%s" % (op, arm, profile, "" if summ.via == "function" else "/instr")
 
     def add(prop, cls, vals, detail):
-        w = [(kinds[i], vals[i]) for i in range(len(vals))]
+        w = native_args(summ, vals)
         try:
             pred = K.eval_summary(summ, vals)
         except Inconclusive as e:
@@ -140,6 +141,8 @@ def check_summary(summ, profile, qs, timeout_ms=20000, seed=0, want_c05=True, wa
     # O0: the path conditions cover every input
     if want_c05:
         cover = z3.Not(z3.Or(*[p.cond() for p in summ.paths])) if summ.paths else z3.BoolVal(True)
+        if getattr(summ, "pre", None) is not None:
+            cover = z3.And(summ.pre, cover)
         r, vals = decide(cover, summ, qs, timeout_ms, seed, lab + ":cover")
         if r == "sat":
             raise Inconclusive("summary of %s does not cover input %r" % (lab, vals))
@@ -170,26 +173,26 @@ def check_summary(summ, profile, qs, timeout_ms=20000, seed=0, want_c05=True, wa
             if p.outcome == "ok":
                 r, vals = decide(p.cond(), summ, qs, timeout_ms, seed, pl + ":unsupported-must-fail")
                 if r == "sat":
-                    add("C05", "ok-on-unsupported-kinds", vals, "operator returned a value for kinds it is not defined on")
+                    add(prop, "ok-on-unsupported-kinds", vals, "operator returned a value for kinds it is not defined on")
             continue
         if p.outcome == "ok":
             if p.rkind != orc["kind"]:
                 r, vals = decide(p.cond(), summ, qs, timeout_ms, seed, pl + ":kind")
                 if r == "sat":
-                    add("C05", "wrong-kind", vals, "result kind %s, promotion table says %s" % (p.rkind, orc["kind"]))
+                    add(prop, "wrong-kind", vals, "result kind %s, promotion table says %s" % (p.rkind, orc["kind"]))
                 continue
             for reason, und in orc["undefined"].items():
                 r, vals = decide(z3.And(p.cond(), und), summ, qs, timeout_ms, seed, pl + ":must-fail:" + reason)
                 if r == "sat":
-                    add("C05", "ok-on-undefined:" + reason, vals, "a value is produced although the exact result is undefined/unrepresentable (%s)" % reason)
+                    add(prop, "ok-on-undefined:" + reason, vals, "a value is produced although the exact result is undefined/unrepresentable (%s)" % reason)
             neq = p.rval.e != orc["value"]
             r, vals = decide(z3.And(p.cond(), orc["defined"], neq), summ, qs, timeout_ms, seed, pl + ":value")
             if r == "sat":
-                add("C05", "wrong-value", vals, "result differs from the exact value")
+                add(prop, "wrong-value", vals, "result differs from the exact value")
         else:
             r, vals = decide(z3.And(p.cond(), orc["defined"]), summ, qs, timeout_ms, seed, pl + ":no-spurious-failure")
             if r == "sat":
-                add("C05", "spurious-failure", vals, "operation fails (%s) although the exact result is defined and representable" % p.outcome)
+                add(prop, "spurious-failure", vals, "operation fails (%s) although the exact result is defined and representable" % p.outcome)
     return out
 
 
@@ -214,18 +217,31 @@ def validation_vectors(summaries, extra=None):
     """boundary^n per summary"""
     vecs = []
     for si, s in enumerate(summaries):
-        sets = [K.BOUNDARY[k] for k in s.kinds]
+        sets = [K.BOUNDARY[s.kinds[i]] for i in range(len(s.inputs))]
         for vi, vals in enumerate(itertools.product(*sets)):
+            if getattr(s, "pre", None) is not None:
+                subs = [(s.inputs[i].e, K.const_of(s.kinds[i], vals[i])) for i in range(len(vals))]
+                if not z3.is_true(z3.simplify(z3.substitute(s.pre, *subs))):
+                    continue
             vecs.append(("v%d_%d" % (si, vi), s, list(vals)))
     return vecs
 
 
 def native_op(summ):
+    if summ.via == "built-in":
+        return "B:" + summ.op
     return summ.op if summ.via == "function" else "I:" + summ.op
 
 
+def native_args(summ, vals):
+    args = [(summ.kinds[i], vals[i]) for i in range(len(vals))]
+    if getattr(summ, "exponent", None) is not None:
+        args.append(("Int", summ.exponent & 0xFFFFFFFF))
+    return args
+
+
 def to_native(vid, summ, vals):
-    return (vid, native_op(summ), [(summ.kinds[i], vals[i]) for i in range(len(vals))])
+    return (vid, native_op(summ), native_args(summ, vals))
 
 
 def same_result(a, b):
